@@ -219,6 +219,19 @@ def run_property(mod, ctx, t0):
     # ---- K obligations ---------------------------------------------------------------------------
     kres = {"suites": 0, "evaluations": 0, "hist": {}, "samples": [], "abandoned": 0, "notes": []}
     kviol = []
+    # thorough tier: the compiled property modules are re-checked by `leanchecker` (the toolchain's independent replay of every declaration through the kernel)
+    if not ctx.quick and not ls["failed"]:
+        import subprocess, concurrent.futures
+        def recheck(m):
+            try:
+                p = subprocess.run(["lake", "env", "leanchecker", m], cwd=core.LEAN, stdout=subprocess.PIPE, stderr=subprocess.STDOUT, timeout=1800)
+                return m, p.returncode, p.stdout.decode("latin1")[-1500:]
+            except Exception as e:
+                return m, 1, "leanchecker could not be run: %r" % (e,)
+        with concurrent.futures.ThreadPoolExecutor(max_workers=3) as ex:
+            for m, rc, out in ex.map(recheck, getattr(mod, "LEAN_MODULES", [])):
+                if rc != 0: p_broken.append(("leanchecker " + m, out))
+                else: kres["notes"].append("leanchecker %s: ok" % m)
     if not bad_build and stamp.get("lean", {}).get("driver"):
         try:
             kviol = mod.run_k(ctx, kres)
